@@ -1,23 +1,72 @@
-(* C14 - Repair: responses are checked against the block hash, bad peers are harmless.
-   Proved for the requester model (Model/Repair.v, any sequence of repair_block / responses / time-outs,
-   any content, any responses): a response the checks reject - unsolicited, of the wrong variant, with a
+(* C14 - Repair: responses are checked against the block hash, bad peers are harmless, the responder's
+   answers are consistent with what it holds, and a repair completes as long as some peer answers correctly.
+
+   PROVED, requester safety (Model/Repair.v, any sequence of repair_block / responses / time-outs, any
+   content, any responses): a response the checks reject - unsolicited, of the wrong variant, with a
    failing Merkle proof, wrong header indices, a slice root other than the proven one, a bad
    signature - leaves the requester's whole state unchanged (request still outstanding, nothing
    stored, nothing sent); a NACK re-sends the request and leaves the set of outstanding requests unchanged;
    a shred is only ever requested after its slice root was proven (so the unreachable!() cannot fire and the
    requester panics only if the blockstore does); whatever is stored as a repaired block under a
-   requested identifier hashes to that identifier, and only such a block is handed to the pool.
+   requested identifier hashes to that identifier, and only such a block is handed to the pool; a block
+   that becomes stored is announced to the pool in that very step (C14_stored_block_is_announced).
    The pinned tree removed a request on ANY response (refuted below), accepted a shred whose last-slice
    flag contradicted the proven slice count (one shred of a slice a Byzantine leader signed twice then
    poisoned the repaired data for good - refuted below) and kept a repaired block whose hash differed
    (assert_eq! panic) - all repaired by "fix:" commits in /repo.
-   PARTIAL: that a proof verifies only for the committed root/position is C15 (the check results enter
-   the model as booleans computed with the real DoubleMerkleTree); the responder's answers
-   (positive answers verify against the block hash, anything unknown / out of range is NACKed, no
-   panic) are decided by the oracle on the real RepairRequestHandler's outputs and by the model /
-   implementation correspondence; sockets, peers' identity, timers are not modelled. *)
+
+   PROVED, responder half (R1, soundness): for EVERY slot state reachable by ANY sequence of blockstore
+   operations (dissemination, repair, own slices; any shreds, any content table), every positive answer of
+   the responder model [answer] is consistent with the block data it holds for the key
+   (C14_responder_sound, predicate [answer_ok] of Model/RepairSpec.v): a last-slice answer only for a
+   completed block data whose last slice is the one named, with the root the completed hash has at that
+   position; a slice-root answer only for a slice <= last with the hash's root at that position; a shred
+   answer only for a shred stored at exactly the requested (slice, index) that carries the slice's
+   committed (last flag, root) - and, whenever the data is complete, the root the hash commits to.
+   The invariant behind it (Proofs/RepairResponderProofs.v, [RI]): no shreds beyond a marked last slice,
+   every stored shred of slice i carries the slice's cached commitment, every reconstructed slice has the
+   cached root, a completed hash lists the cached roots of slices 0..last - preserved by BlockData::add_shred
+   for arbitrary shreds and by add_own_slice.  If every repair operation files its shred under the hash its
+   key stands for, the block held for a key hashes to the key (C14_responder_hash_is_key), so the answers
+   verify against the requested hash (C14_responder_answers_verify).  Everything else is answered NACK,
+   the answer function is total - unknown block, block data not complete, slice beyond the last, shred
+   not held (C14_responder_nacks).
+   (R2, completeness): a responder that completed an honest block from dissemination (any order, duplicates,
+   any subset making every slice ready) answers LastSliceRoot with (k-1, r_{k-1}), SliceRoot s < k with r_s,
+   Shred (s < k, i < TOTAL_SHREDS) with the leader's shred (C14_responder_complete); on the wire these are
+   the correct responses (C14_responder_answers_correctly).
+
+   PROVED, progress (R3, 'cannot be derailed ... as long as some peer keeps answering correctly'):
+   for an honest block [hb] requested under its own hash, and ANY stream of operations after repair_block,
+   split into >= 3 rounds, such that
+     - SOUND (decidable [sound_op]): a last-slice / slice-root proof boolean is true only for the true last
+       index / the true root at that position (C15's theorem for the real tree), and a validly signed shred with
+       the requested indices, the slice's root and the slice's last flag is the leader's shred (one slice
+       content per signed root - Merkle binding); everything else - NACKs, failing proofs, wrong variants,
+       unsolicited or replayed responses, shreds of other validly signed slices of a Byzantine leader (other
+       root or other last flag), time-outs, repeated repair_block - is unconstrained;
+     - FAIR (decidable [fair_rounds]): every round contains, anywhere and interleaved with anything, the correct
+       response to each request outstanding at its start (the three protocol phases: last-slice root, slice
+       roots, shreds);
+   the run ends without a panic, with [have_block] for the key, the stored hash being the requested one, and
+   an OBlockToPool output for the key under that hash (C14_repair_completes).  The same when the responses
+   are literally what a peer holding the block answers with the responder model
+   (C14_repair_completes_with_honest_peer, joining R2 and R3).  Phase lemmas for every state a sound stream
+   reaches: no panic and every outstanding request is for the block, in range, shreds only under the true
+   root (C14_sound_stream_safe); the correct response to an outstanding request is accepted, removes exactly
+   that request, records what it proves and issues exactly the next phase's requests
+   (C14_correct_last_accepted / _root_ / _shred_; stored shreds only grow).
+
+   REMAINS ORACLE-ONLY / PREMISES: that a proof boolean is sound and that a signed root binds the slice
+   content are premises here (C15 / C12 prove them for the real tree and shred validation; the booleans enter
+   the model computed with the real code); the Merkle proof OBJECTS of the responder (a created proof verifies:
+   C15 proof_complete) and the model / implementation correspondence of [answer] and [handle_response] are
+   decided by the oracle on the real RepairRequestHandler / Repair; fairness is the finite round form above
+   (timers, peer choice, sockets are not modelled: a re-request after a time-out is the request staying
+   outstanding). *)
 From Coq Require Import List NArith Bool.
-From AG Require Import Gen.Params Model.Pool Model.Blockstore Model.Repair Proofs.RepairProofs.
+From AG Require Import Gen.Params Model.Pool Model.Blockstore Model.BlockstoreSpec Model.Repair Model.RepairSpec
+  Proofs.RepairProofs Proofs.RepairResponderProofs Proofs.RepairProgressProofs.
 Import ListNotations.
 Open Scope N_scope.
 
@@ -68,6 +117,196 @@ Theorem C14_resigned_slice_derails_unchecked_repair_refuted :
   have_block (rp_store good) 1 = true /\ rp_panicked good = false.
 Proof. exact resigned_slice_derails_unchecked_repair. Qed.
 
+(* ---------- a block that becomes stored is announced (any stream) ---------- *)
+Theorem C14_stored_block_is_announced : forall keep ct slot expected rp o key,
+  have_block (rp_store rp) key = false ->
+  have_block (rp_store (fst (repair_step keep ct slot expected rp o))) key = true ->
+  exists h p, In (OBlockToPool key h p) (snd (repair_step keep ct slot expected rp o)).
+Proof. exact stored_block_is_announced. Qed.
+
+(* ---------- R1: responder soundness, every reachable slot state ---------- *)
+Theorem C14_responder_sound : forall chk ct slot ops key_hash r,
+  answer_ok (bs_run_ops chk ct slot ops) key_hash r (answer (bs_run_ops chk ct slot ops) key_hash r).
+Proof. exact responder_sound. Qed.
+
+Theorem C14_responder_hash_is_key : forall chk ct slot ops key_hash b d h p,
+  ops_keyed key_hash ops = true ->
+  responder_data (bs_run_ops chk ct slot ops) b (key_hash b) = Some d -> bd_completed d = Some (h, p) -> h = key_hash b.
+Proof. exact responder_hash_is_key. Qed.
+
+Theorem C14_responder_answers_verify : forall chk ct slot ops key_hash r,
+  ops_keyed key_hash ops = true ->
+  answer_verifies (bs_run_ops chk ct slot ops) key_hash r (answer (bs_run_ops chk ct slot ops) key_hash r).
+Proof. exact responder_answers_verify. Qed.
+
+Theorem C14_responder_nacks : forall chk ct slot ops key_hash b,
+  let sd := bs_run_ops chk ct slot ops in
+  (responder_data sd b (key_hash b) = None ->
+     answer sd key_hash (RLast b) = ANack /\ (forall s, answer sd key_hash (RRoot b s) = ANack) /\
+     (forall s i, answer sd key_hash (RShred b s i) = ANack)) /\
+  (forall d h l, responder_data sd b (key_hash b) = Some d -> held_block d h l ->
+     forall s, l < s -> answer sd key_hash (RRoot b s) = ANack /\ forall i, answer sd key_hash (RShred b s i) = ANack) /\
+  (forall d, responder_data sd b (key_hash b) = Some d -> bd_completed d = None ->
+     answer sd key_hash (RLast b) = ANack /\ forall s, answer sd key_hash (RRoot b s) = ANack) /\
+  (forall d s i, responder_data sd b (key_hash b) = Some d ->
+     (forall shs, alookup s (bd_shreds d) = Some shs -> alookup i shs = None) -> answer sd key_hash (RShred b s i) = ANack).
+Proof. exact responder_nacks. Qed.
+
+(* ---------- R2: responder completeness for a block completed from dissemination ---------- *)
+Theorem C14_responder_complete : forall slot ct hb l key_hash b,
+  hb_ok slot ct hb = true -> forallb (honest_shred hb) l = true -> block_ready hb l = true ->
+  key_hash b = hb_hash hb ->
+  let sd := fst (bs_dissem_run ct slot l) in
+  answer sd key_hash (RLast b) = ALast (hb_len hb - 1) (hb_root hb (hb_len hb - 1)) /\
+  (forall s, s < hb_len hb -> answer sd key_hash (RRoot b s) = ARoot (hb_root hb s)) /\
+  (forall s i, s < hb_len hb -> i < TOTAL_SHREDS -> answer sd key_hash (RShred b s i) = AShred (hshred hb s i)).
+Proof. exact responder_complete. Qed.
+
+Theorem C14_responder_answers_correctly : forall slot ct hb l key_hash r,
+  hb_ok slot ct hb = true -> forallb (honest_shred hb) l = true -> block_ready hb l = true ->
+  key_hash (req_key r) = hb_hash hb ->
+  (match r with RLast _ => True | RRoot _ s => s < hb_len hb | RShred _ s i => s < hb_len hb /\ i < TOTAL_SHREDS end) ->
+  resp_of_answer r (answer (fst (bs_dissem_run ct slot l)) key_hash r) = correct_resp hb r.
+Proof. exact responder_answers_correctly. Qed.
+
+(* ---------- R3: progress ---------- *)
+Theorem C14_sound_stream_safe : forall slot ct hb k expected ops,
+  hb_ok slot ct hb = true -> expected k = hb_hash hb -> forallb (sound_op hb k) ops = true ->
+  let rp := repair_run true ct slot expected (OStart k :: ops) in
+  rp_panicked rp = false /\ sd_panicked (rp_store rp) = false /\
+  (forall r, has_req rp r = true ->
+     match r with
+     | RLast b => b = k
+     | RRoot b s => b = k /\ s < hb_len hb
+     | RShred b s i => b = k /\ s < hb_len hb /\ i < TOTAL_SHREDS /\ root_lookup (k, s) (rp_roots rp) = Some (hb_root hb s)
+     end).
+Proof. exact reach_sound_stream_safe. Qed.
+
+Theorem C14_correct_last_accepted : forall slot ct hb k expected ops,
+  hb_ok slot ct hb = true -> expected k = hb_hash hb -> forallb (sound_op hb k) ops = true ->
+  let rp := repair_run true ct slot expected (OStart k :: ops) in
+  has_req rp (RLast k) = true ->
+  let rp' := fst (handle_response true ct slot expected rp (correct_resp hb (RLast k))) in
+  rp_panicked rp' = false /\ alookup k (rp_lasts rp') = Some (hb_len hb - 1) /\
+  (forall x, has_req rp' x = has_req rp x && negb (rreq_eqb (RLast k) x)
+                             || existsb (rreq_eqb x) (map (fun s => RRoot k s) (seqN 0 (N.to_nat (hb_len hb))))) /\
+  rp_store rp' = rp_store rp.
+Proof. exact reach_last_accepted. Qed.
+
+Theorem C14_correct_root_accepted : forall slot ct hb k expected ops s,
+  hb_ok slot ct hb = true -> expected k = hb_hash hb -> forallb (sound_op hb k) ops = true ->
+  let rp := repair_run true ct slot expected (OStart k :: ops) in
+  has_req rp (RRoot k s) = true ->
+  let rp' := fst (handle_response true ct slot expected rp (correct_resp hb (RRoot k s))) in
+  rp_panicked rp' = false /\ root_lookup (k, s) (rp_roots rp') = Some (hb_root hb s) /\
+  (forall x, has_req rp' x = has_req rp x && negb (rreq_eqb (RRoot k s) x)
+                             || existsb (rreq_eqb x) (map (fun i => RShred k s i) (seqN 0 (N.to_nat TOTAL_SHREDS)))) /\
+  rp_store rp' = rp_store rp /\ rp_lasts rp' = rp_lasts rp.
+Proof. exact reach_root_accepted. Qed.
+
+Theorem C14_correct_shred_accepted : forall slot ct hb k expected ops s i,
+  hb_ok slot ct hb = true -> expected k = hb_hash hb -> forallb (sound_op hb k) ops = true ->
+  let rp := repair_run true ct slot expected (OStart k :: ops) in
+  has_req rp (RShred k s i) = true ->
+  let rp' := fst (handle_response true ct slot expected rp (correct_resp hb (RShred k s i))) in
+  let shreds_of x := bd_shreds (aget bd_empty k (sd_repaired (rp_store x))) in
+  rp_panicked rp' = false /\
+  alookup i (aget [] s (shreds_of rp')) = Some (hshred hb s i) /\
+  (forall x, has_req rp' x = has_req rp x && negb (rreq_eqb (RShred k s i) x)) /\
+  (forall s' i', s' < hb_len hb -> i' < TOTAL_SHREDS ->
+     alookup i' (aget [] s' (shreds_of rp)) = Some (hshred hb s' i') ->
+     alookup i' (aget [] s' (shreds_of rp')) = Some (hshred hb s' i')) /\
+  rp_roots rp' = rp_roots rp /\ rp_lasts rp' = rp_lasts rp.
+Proof. exact reach_shred_accepted. Qed.
+
+Theorem C14_repair_completes : forall slot ct hb k expected rounds,
+  hb_ok slot ct hb = true -> expected k = hb_hash hb ->
+  forallb (forallb (sound_op hb k)) rounds = true ->
+  fair_rounds hb ct slot expected (repair_run true ct slot expected [OStart k]) rounds = true ->
+  (3 <= length rounds)%nat ->
+  let rp := repair_run true ct slot expected (OStart k :: concat rounds) in
+  rp_panicked rp = false /\ have_block (rp_store rp) k = true /\
+  (exists d p, alookup k (sd_repaired (rp_store rp)) = Some d /\ bd_completed d = Some (hb_hash hb, p) /\ fst p < slot) /\
+  (exists p, In (OBlockToPool k (hb_hash hb) p) (run_outs true ct slot expected repair_init (OStart k :: concat rounds))).
+Proof. exact repair_completes. Qed.
+
+Theorem C14_repair_completes_with_honest_peer : forall slot ct hb k expected lp rounds,
+  hb_ok slot ct hb = true -> expected k = hb_hash hb ->
+  forallb (honest_shred hb) lp = true -> block_ready hb lp = true ->
+  forallb (forallb (sound_op hb k)) rounds = true ->
+  peer_rounds (fst (bs_dissem_run ct slot lp)) ct slot expected (repair_run true ct slot expected [OStart k]) rounds = true ->
+  (3 <= length rounds)%nat ->
+  let rp := repair_run true ct slot expected (OStart k :: concat rounds) in
+  rp_panicked rp = false /\ have_block (rp_store rp) k = true /\
+  (exists d p, alookup k (sd_repaired (rp_store rp)) = Some d /\ bd_completed d = Some (hb_hash hb, p) /\ fst p < slot) /\
+  (exists p, In (OBlockToPool k (hb_hash hb) p) (run_outs true ct slot expected repair_init (OStart k :: concat rounds))).
+Proof. exact repair_completes_with_honest_peer. Qed.
+
+(* ---------- non-vacuity of the new hypotheses ---------- *)
+Definition ex_ct : content := [(7, DecOk (Some (4, 3)) true); (8, DecOk None true)].
+Definition ex_hb : hblock := [(7, 100); (8, 100)].
+Definition ex_expected : N -> blockhash := fun _ => [7; 8].
+(* what the responder received: 40 shreds of slice 1, then 40 of slice 0, then duplicates *)
+Definition ex_held : list bshred :=
+  map (hshred ex_hb 1) (seqN 0 40) ++ map (hshred ex_hb 0) (seqN 10 40) ++ map (hshred ex_hb 0) (seqN 12 3).
+(* hostile noise: failing proofs, NACKs, an unsolicited response, wrong variants, a shred of a re-signed slice
+   (same root, other last flag, valid signature), a shred under another validly signed root, a shred with the
+   wrong index, a time-out, a repeated repair_block *)
+Definition ex_noise : list rop :=
+  [OResp (PLast (RLast 1) 0 7 false); OResp (PLast (RLast 1) 5 9 false); OResp (PNack (RLast 1)); OResp (PNack (RRoot 1 0));
+   OResp (PRoot (RRoot 1 0) 9 false); OResp (PRoot (RLast 1) 7 true); OResp (PLast (RLast 2) 0 7 true);
+   OResp (PShred (RShred 1 0 0) true (mkBS 0 true 7 0 true 100) true);
+   OResp (PShred (RShred 1 0 1) true (mkBS 0 false 9 1 true 100) true);
+   OResp (PShred (RShred 1 1 2) true (hshred ex_hb 1 3) true);
+   OTimeout (RLast 1); OStart 1].
+Definition ex_rp0 := repair_run true ex_ct 5 ex_expected [OStart 1].
+Definition ex_round (rp : repair) : list rop :=
+  ex_noise ++ rev (map (fun r => OResp (correct_resp ex_hb r)) (rp_outstanding rp)) ++ ex_noise.
+Definition ex_rounds : list (list rop) :=
+  let l1 := ex_round ex_rp0 in
+  let rp1 := run_ops true ex_ct 5 ex_expected ex_rp0 l1 in
+  let l2 := ex_round rp1 in
+  let rp2 := run_ops true ex_ct 5 ex_expected rp1 l2 in
+  let l3 := ex_round rp2 in
+  let rp3 := run_ops true ex_ct 5 ex_expected rp2 l3 in
+  [l1; l2; l3; ex_round rp3].
+Definition ex_peer : slotdata := fst (bs_dissem_run ex_ct 5 ex_held).
+Definition ex_pround (rp : repair) : list rop :=
+  ex_noise ++ map (fun r => OResp (resp_of_answer r (answer ex_peer ex_expected r))) (rp_outstanding rp).
+Definition ex_prounds : list (list rop) :=
+  let l1 := ex_pround ex_rp0 in
+  let rp1 := run_ops true ex_ct 5 ex_expected ex_rp0 l1 in
+  let l2 := ex_pround rp1 in
+  let rp2 := run_ops true ex_ct 5 ex_expected rp1 l2 in
+  [l1; l2; ex_pround rp2].
+
+(* the premises of C14_repair_completes hold for a two-slice block fetched through hostile noise *)
+Example C14_progress_nonvacuous :
+  hb_ok 5 ex_ct ex_hb = true /\ ex_expected 1 = hb_hash ex_hb /\
+  forallb (forallb (sound_op ex_hb 1)) ex_rounds = true /\
+  fair_rounds ex_hb ex_ct 5 ex_expected ex_rp0 ex_rounds = true /\ (3 <= length ex_rounds)%nat /\
+  existsb (fun o => negb (sound_op ex_hb 1 o)) [OResp (PLast (RLast 1) 0 7 true); OResp (PShred (RShred 1 0 0) true (mkBS 0 false 7 0 true 50) true)] = true.
+Proof. vm_compute. repeat split; try reflexivity; repeat constructor. Qed.
+
+(* the premises of C14_repair_completes_with_honest_peer / C14_responder_complete hold *)
+Example C14_peer_nonvacuous :
+  forallb (honest_shred ex_hb) ex_held = true /\ block_ready ex_hb ex_held = true /\
+  forallb (forallb (sound_op ex_hb 1)) ex_prounds = true /\
+  peer_rounds ex_peer ex_ct 5 ex_expected ex_rp0 ex_prounds = true /\ (3 <= length ex_prounds)%nat.
+Proof. vm_compute. repeat split; try reflexivity; repeat constructor. Qed.
+
+(* the responder gives positive answers of every kind and NACKs in reachable states, also with repaired data
+   filed under the key's hash *)
+Example C14_responder_nonvacuous :
+  let ops := map BDissem ex_held ++ map (fun i => BRepair 2 [7; 8] (hshred ex_hb 0 i)) (seqN 0 5) in
+  let sd := bs_run_ops true ex_ct 5 ops in
+  ops_keyed ex_expected ops = true /\
+  answer sd ex_expected (RLast 1) = ALast 1 8 /\ answer sd ex_expected (RRoot 1 0) = ARoot 7 /\
+  answer sd ex_expected (RShred 1 1 63) = AShred (hshred ex_hb 1 63) /\ answer sd ex_expected (RRoot 1 2) = ANack /\
+  answer sd (fun k => if k =? 2 then [9] else [7; 8]) (RShred 2 0 3) = AShred (hshred ex_hb 0 3) /\
+  answer sd (fun k => if k =? 2 then [9] else [7; 8]) (RLast 2) = ANack.
+Proof. vm_compute. repeat split; reflexivity. Qed.
+
 (* non-vacuity: a one-slice block is fetched through hostile noise and stored *)
 Example C14_nonvacuous :
   let ct := [(7, DecOk (Some (4, 3)) true)] in
@@ -89,3 +328,19 @@ Print Assumptions C14_only_matching_blocks_reach_the_pool.
 Print Assumptions C14_pinned_bad_response_cancels_request_refuted.
 Print Assumptions C14_resigned_slice_derails_unchecked_repair_refuted.
 Print Assumptions C14_nonvacuous.
+Print Assumptions C14_stored_block_is_announced.
+Print Assumptions C14_responder_sound.
+Print Assumptions C14_responder_hash_is_key.
+Print Assumptions C14_responder_answers_verify.
+Print Assumptions C14_responder_nacks.
+Print Assumptions C14_responder_complete.
+Print Assumptions C14_responder_answers_correctly.
+Print Assumptions C14_sound_stream_safe.
+Print Assumptions C14_correct_last_accepted.
+Print Assumptions C14_correct_root_accepted.
+Print Assumptions C14_correct_shred_accepted.
+Print Assumptions C14_repair_completes.
+Print Assumptions C14_repair_completes_with_honest_peer.
+Print Assumptions C14_progress_nonvacuous.
+Print Assumptions C14_peer_nonvacuous.
+Print Assumptions C14_responder_nonvacuous.
